@@ -19,8 +19,11 @@ TRound == /\ IsEvent("Round")
           /\ stored' = ToSet(Ev.stored)                   \* the real APFL client-state table
           /\ {k \in Clusters : version'[k] # version[k]} = ToSet(Ev.changed)     \* clusters whose params / optimizer state changed
           /\ Ev.weights_simplex /\ Ev.coefficients_in_unit_interval /\ Ev.assigned_to_min_loss_cluster
+\* the real APFL evaluation function was run on `who`; the table is read off the real state afterwards
+TEval == /\ IsEvent("Eval") /\ Evaluate(ToSet(Ev.who))
+         /\ stored' = ToSet(Ev.stored) /\ Ev.finite
 TEnd == IsEvent("End") /\ UNCHANGED vars
-TraceNext == TRound \/ TEnd
+TraceNext == TRound \/ TEval \/ TEnd
 Verdicts == /\ Progress(<<round, window, stored, version>>)
             /\ Check("WindowIsRecent", WindowIsRecent, TRUE)
             /\ Check("StoredOnlyParticipants", StoredOnlyParticipants, TRUE)
